@@ -185,6 +185,13 @@ func bombCases() [][]byte {
 			out = append(out, append([]byte("*"+n+"\r\n"), bytes.Repeat([]byte(":1\r\n"), elems)...))
 		}
 	}
+	// nesting multiplies whatever a single declaration may reserve: 1 MiB of nested headers that each declare a
+	// large count (nothing behind them)
+	for _, n := range []string{"99999", "65536", "2147483647", "1024"} {
+		h := "*" + n + "\r\n"
+		out = append(out, []byte(strings.Repeat(h, (1<<20)/len(h))))
+	}
+	out = append(out, []byte(strings.Repeat("*2\r\n$1\r\na\r\n", 1<<16)+"$99999\r\n"))
 	// maximal nesting that fits into 1 MiB of input: the parser recurses once per level
 	out = append(out, []byte(strings.Repeat("*1\r\n", 262144)))
 	out = append(out, []byte(strings.Repeat("*1\r\n", 262143)+"$3\r\nabc\r\n"))
@@ -339,6 +346,8 @@ func bombClass(b []byte) string {
 		return ":as-argument"
 	case strings.HasPrefix(string(b), "*1\r\n*1\r\n*1\r\n*1\r\n"):
 		return ":deep-nesting"
+	case len(b) > 1<<19 && b[0] == '*' && bytes.Count(b[:64], []byte("*")) >= 4:
+		return ":nested-large-counts"
 	case len(b) > 600:
 		return ":with-data"
 	case strings.HasPrefix(string(b), "*1\r\n*1"):
